@@ -363,12 +363,23 @@ def rule_z6(ctx, facts):
              "all %d joining sites agree on the refusals" % len(vals) if same else "the joining rules differ between sites: %s" % {strip_generics(k): v for k, v in found.items()})
 
 
+def index_local(tr, ev):
+    """the bin index of transfer's loop: the named isize local one of whose definitions is `itself - 1`"""
+    for l in range(len(tr.locals)):
+        if tr.local_name(l) and tr.ty(l)["s"] == "isize":
+            for pt, f in ev.def_forms(l):
+                if f is not TOP and f == Aff({("phi", l): 1}, -1):
+                    return l, pt
+    return None, None
+
+
 def rule_z7(ctx, facts):
-    """stride claiming: a participant claims [next_bound, next_index) by a CAS on transfer_index from a freshly loaded next_index to
-    next_index - stride (or 0), and on success works exactly on that range"""
+    """stride claiming, necessary conditions only.  Which bins a participant works on after a claim is NOT checked: overlapping or
+    skipped ranges are harmless, because a bin is moved under its lock only if it is not yet forwarded and the finisher sweeps the
+    whole table before publishing (Z9).  What claiming must guarantee is progress: transfer_index strictly decreases with every won
+    claim and claiming stops at <= 0, else transfer never returns and the resize never completes."""
     tr = facts.body("map::HashMap::transfer")
     ev = evaluator(tr)
-    fl = flow(tr)
     TI = ("map::HashMap", "transfer_index")
     cass = [c for c in tr.calls if is_std_atomic(c) == "compare_exchange" and TI in receiver_field(tr, c, 0) and not tr.is_cleanup(c.b)]
     loads = [c for c in tr.calls if is_std_atomic(c) == "load" and TI in receiver_field(tr, c, 0) and not tr.is_cleanup(c.b)]
@@ -386,14 +397,36 @@ def rule_z7(ctx, facts):
     if L is None:
         return
     Ls = Aff.sym(("call", L.b))
-    # new value: next_index - stride, or 0 when next_index <= stride
-    nl = op_local(cas.args[2])
+    # claiming stops at <= 0: the CAS is only attempted on the false edge of next_index <= 0 (true edge of > 0)
+    pos = False
+    for blk in range(len(tr.blocks)):
+        cd = cond_of(tr, blk)
+        if not cd or cd["kind"] != "cmp":
+            continue
+        a, b2 = ev.operand(cd["a"]), ev.operand(cd["b"])
+        if a is TOP or b2 is TOP:
+            continue
+        op = cd["op"]
+        if b2 == Ls and a.is_const():
+            a, b2, op = b2, a, {"Lt": "Gt", "Le": "Ge", "Gt": "Lt", "Ge": "Le"}.get(op, op)
+        if a == Ls and b2.is_const():
+            edge = None
+            if (op == "Le" and b2.c == 0) or (op == "Lt" and b2.c == 1):
+                edge = cd["false"]
+            elif (op == "Gt" and b2.c == 0) or (op == "Ge" and b2.c == 1):
+                edge = cd["true"]
+            if edge is not None and dominated_by_edge(tr, cas.point, [(blk, edge)]):
+                pos = True
+    ctx.inst("Z7", tr, "claiming stops at transfer_index <= 0", cas.span, pos,
+             "the claim CAS is attempted only when the loaded index is positive" if pos else
+             "the claim CAS is attempted although the loaded transfer_index may be <= 0: a participant can claim the empty range for ever")
+    # new value strictly below the expected one (and 0 only when the expected one was positive)
     forms = []
     if new is not TOP and len(new.symbols()) == 1 and next(iter(new.symbols()))[0] == "phi":
         forms = ev.def_forms(next(iter(new.symbols()))[1])
     elif new is not TOP:
         forms = [(cas.point, new)]
-    ok_forms = True
+    ok_forms = bool(forms)
     desc = []
     for pt, f in forms:
         if f is TOP:
@@ -401,60 +434,104 @@ def rule_z7(ctx, facts):
             desc.append("?")
             continue
         desc.append(f.show(tr))
-        if f.is_const() and f.c == 0:
+        if f.is_const() and f.c <= 0 and pos:
             continue
         rest = f - Ls
-        if len(rest.symbols()) == 1 and rest.c == 0 and all(v == -1 for v in rest.terms.values()):
+        # rest = -(k * stride) + c with stride = max(_, MIN) >= MIN > 0: negative iff c < k * MIN
+        if len(rest.symbols()) == 1 and all(v < 0 for v in rest.terms.values()):
             s0 = next(iter(rest.symbols()))
             sc = tr.call_at(s0[1]) if s0[0] == "call" else None
             if sc is not None and callee_str(sc).endswith("cmp::max"):
-                # guarded by next_index > stride
-                g = False
-                for blk in range(len(tr.blocks)):
-                    cd = cond_of(tr, blk)
-                    if cd and cd["kind"] == "cmp" and cd["op"] == "Gt":
-                        a, b2 = ev.operand(cd["a"]), ev.operand(cd["b"])
-                        if a is not TOP and b2 is not TOP and a == Ls and b2 == Aff.sym(s0) and dominated_by_edge(tr, pt, [(blk, cd["true"])]):
-                            g = True
-                if g:
+                lows = [ev.operand(a) for a in sc.args]
+                lows = [x.c for x in lows if x is not TOP and x.is_const()]
+                if lows and max(lows) > 0 and rest.c < -rest.terms[s0] * max(lows):
                     continue
+        if rest.is_const() and rest.c < 0:
+            continue
         ok_forms = False
-    ctx.inst("Z7", tr, "claimed lower bound", cas.span, ok_forms and len(forms) >= 2,
-             "next_bound is next_index - stride (when next_index > stride) or 0: %s" % desc if ok_forms and len(forms) >= 2 else
-             "the new transfer_index is %s; expected next_index - stride guarded by next_index > stride, else 0: ranges overlap or bins are skipped" % desc)
-    # on success: bound := next_bound, i := next_index
-    oke, _ = ok_edge(tr, cas)
-    got_bound = got_i = False
-    if oke:
-        for bi, blk in enumerate(tr.blocks):
-            if blk["cleanup"]:
-                continue
-            for si, st in enumerate(blk["stmts"]):
-                if st["k"] == "assign" and not st["dst"]["proj"] and tr.local_name(st["dst"]["local"]) and "use" in st["rv"]:
-                    if not dominated_by_edge(tr, Point(bi, si), [oke]):
-                        continue
-                    src = op_local(st["rv"]["use"])
-                    if src is None:
-                        continue
-                    f = ev.operand(st["rv"]["use"])
-                    # only assignments in the blocks right after the won CAS (before the next claim attempt)
-                    if Point(bi, si) not in reach(tr, [Point(oke[1], 0)], avoid={L.point}):
-                        continue
-                    if nl is not None and (src == nl or src in fl.copies_of(nl)) and tr.ty(st["dst"]["local"])["s"] == "isize":
-                        got_bound = True
-                    if f is not TOP and f == Ls:
-                        got_i = True
-    ctx.inst("Z7", tr, "won claim sets (bound, i) := (next_bound, next_index)", cas.span, got_bound and got_i,
-             "the claimed range is exactly what the participant then processes" if got_bound and got_i else
-             "after winning the claim the participant does not work on [next_bound, next_index): bound set: %s, i set: %s" % (got_bound, got_i))
-    # i steps down by one, compared with bound
-    idec = False
-    for l in range(len(tr.locals)):
-        if tr.local_name(l) == "i" and tr.ty(l)["s"] == "isize":
-            for pt, f in ev.def_forms(l):
-                if f is not TOP and f == Aff({("phi", l): 1}, -1):
-                    idec = True
-    ctx.inst("Z7", tr, "index steps down by one", tr.span, idec, "i -= 1 per processed bin" if idec else "the bin index is not decremented by exactly one")
+    ctx.inst("Z7", tr, "every won claim lowers transfer_index", cas.span, ok_forms,
+             "the new value is below the loaded one on every path: %s" % desc if ok_forms else
+             "the new transfer_index is %s, which is not provably below the loaded value: claiming makes no progress" % desc)
+    I, dpt = index_local(tr, ev)
+    ctx.inst("Z7", tr, "index steps down by one", tr.span_at(dpt) if dpt else tr.span, I is not None,
+             "i -= 1 per processed bin" if I is not None else "the bin index is not decremented by exactly one: the sweep skips bins or does not end")
+
+
+def rule_z9(ctx, facts):
+    """the thread elected to finish sweeps the whole old table before it publishes: from `finishing = true`, every feasible path to the
+    publication passes `i := len(old table)` and then the decrement that starts the downward sweep (bool flags such as `advance` are
+    tracked, so forgetting to re-enable the decrement loop is seen).  Without the sweep, bins claimed by participants that left early
+    (and, in this port, the initiator's first stride) are published unmigrated."""
+    from .esp import Esp, Spec
+    tr = facts.body("map::HashMap::transfer")
+    ev = evaluator(tr)
+    fl = flow(tr)
+    I, dpt = index_local(tr, ev)
+    e1 = [c for c in tr.calls if is_reclaim_atomic(c) == "store" and ("map::HashMap", "next_table") in receiver_field(tr, c, 0) and not tr.is_cleanup(c.b)]
+    e2 = [c for c in tr.calls if is_reclaim_atomic(c) == "swap" and ("map::HashMap", "table") in receiver_field(tr, c, 0) and not tr.is_cleanup(c.b)]
+    if I is None or not e2:
+        ctx.fail_closed("Z9: bin index or table swap not found in transfer")
+        return
+    pubs = {c.point for c in e1 + e2}
+    gate = None
+    for blk in range(len(tr.blocks)):
+        cd = cond_of(tr, blk)
+        if cd and cd["kind"] == "bool" and all(dominated_by_edge(tr, p, [(blk, cd["true"])]) for p in pubs):
+            gate = (blk, cd)
+    if gate is None:
+        ctx.fail_closed("Z9: publication is not gated by a boolean (see Z1)")
+        return
+    F = gate[1]["local"]
+    # length of the table being emptied: Table::len on the table parameter
+    N = None
+    for c in tr.calls:
+        if callee_str(c).endswith("Table::len") and c.args and op_root(c.args[0]) is not None and fl.derives_from_arg(op_root(c.args[0]), 2):
+            N = Aff.sym(("call", c.b))
+            break
+    if N is None:
+        ctx.fail_closed("Z9: length of the old table (Table::len on transfer's table parameter) not found")
+        return
+    arm = {}
+    for pt, f in ev.def_forms(I):
+        if f is not TOP and f == N:
+            arm[pt] = True
+    dec = {pt for pt, f in ev.def_forms(I) if f is not TOP and f == Aff({("phi", I): 1}, -1)}
+
+    class Sweep(Spec):
+        def __init__(self):
+            self.bad = None
+
+        def on_stmt(self, pt, st, ts, env):
+            if ts == "sweeping":
+                return []
+            if pt in arm:
+                return ["armed"]
+            if pt in dec:
+                return ["sweeping"] if ts == "armed" else [ts]
+            if st["k"] == "assign" and not st["dst"]["proj"] and st["dst"]["local"] == I and ts == "armed":
+                return ["elected"]
+            return [ts]
+
+        def on_call(self, pt, c, ts, env):
+            if ts == "sweeping":
+                return []
+            if pt in pubs and self.bad is None:
+                self.bad = (pt, ts)
+            return [ts]
+
+    trues = [pt for pt, kind, data in tr.defs.get(F, []) if kind == "assign" and not ("use" in data["rv"] and data["rv"]["use"].get("int") == 0)]
+    if not trues:
+        ctx.fail_closed("Z9: the finisher flag is never set")
+    for pt in trues:
+        spec = Sweep()
+        esp = Esp(tr, spec, extra_flags={F})
+        esp.run(start_pt=pt, init_ts="elected")
+        ok = spec.bad is None
+        ctx.inst("Z9", tr, "finisher sweeps the whole table before publishing", tr.span_at(pt), ok,
+                 "from `%s = true` every feasible path to the publication sets i := len(old table) and enters the downward sweep" % tr.local_name(F) if ok else
+                 "the publication at %s is reachable from `%s = true` %s: bins that nobody migrated (ranges given up by participants that "
+                 "left early) are dropped with the old table" % (tr.span_at(spec.bad[0]), tr.local_name(F),
+                 "without resetting the index to the table length" if spec.bad[1] == "elected" else "without re-entering the decrement loop after the reset"))
 
 
 def rule_z8(ctx, facts):
@@ -511,8 +588,13 @@ def rule_z8(ctx, facts):
 def run(ctx, facts):
     ctx.rule("Z8", "an initiator's table was loaded after (or re-validated after) the size_ctl value its ticket CAS expects", floor=2)
     rule_z8(ctx, facts)
-    ctx.rule("Z7", "stride claiming: CAS(transfer_index, fresh next_index -> next_index - stride | 0); the winner processes exactly [next_bound, next_index)", floor=4)
+    ctx.rule("Z7", "stride claiming makes progress: CAS(transfer_index, fresh positive next_index -> something smaller); the index steps down by one", floor=4)
     rule_z7(ctx, facts)
+    ctx.rule("Z10", "a bin is migrated only under its lock and after re-validating that the locked node is still the bin's head (rule L1 of C01 on transfer)", floor=2)
+    from .rules_c01 import rule_l1
+    rule_l1(ctx, facts, rule="Z10", only=("map::HashMap::transfer",))
+    ctx.rule("Z9", "the elected finisher sweeps the whole old table (i := len, then downwards) before publishing", floor=1)
+    rule_z9(ctx, facts)
     ctx.rule("Z1", "single finisher elected by the last sc-1 CAS; publication block gated, ordered and complete", floor=2)
     ctx.rule("Z2", "next table has twice the old length; transfer index starts at the old length", floor=2)
     ctx.rule("Z3", "resize initiation guarded by len < MAXIMUM_CAPACITY", floor=2)
